@@ -112,7 +112,10 @@ def _impersonate_options(
                 max_window_scale = 2**8
 
                 if Quirk.OPT_EXWS in signature.quirks:  # window_scale > 14
-                    if window_scale_hint and 14 < window_scale_hint < max_window_scale:
+                    if (
+                        window_scale_hint is not None
+                        and 14 < window_scale_hint < max_window_scale
+                    ):
                         impersonated_option = ("WScale", window_scale_hint)
                     else:
                         # invalid hint, generate new value > 14
@@ -121,7 +124,8 @@ def _impersonate_options(
                             random.randrange(15, max_window_scale),
                         )
                 else:
-                    if window_scale_hint and 0 <= window_scale_hint < max_window_scale:
+                    # more than 14 would add the 'exws' quirk
+                    if window_scale_hint is not None and 0 <= window_scale_hint <= 14:
                         impersonated_option = ("WScale", window_scale_hint)
                     else:
                         # invalid hint, generate new value
